@@ -129,7 +129,7 @@ impl Prop for C08 {
                 _ => false,
             });
             if bad || !crate::props::c15::f32_params_ok(&sc.trees[0]) {
-                out.invalid = Some("f32 mode needs magnitudes in {0} u [1e-6, 1e7] and an ALMA sigma <= 6".into());
+                out.invalid = Some("f32 mode needs magnitudes in {0} u [1e-6, 1e7], an ALMA sigma <= 6, and LnReturn/Drawdown directly over the stream".into());
                 return out;
             }
             out.stats.hit("reach.instantiated_at_f32");
@@ -140,7 +140,7 @@ impl Prop for C08 {
     }
 
     fn rule(&self) -> String {
-        "Mode 'stall' (runs below the systematic bound): every wrapper (32 unary views, PFE, EFT) x N in {1..9,16,33,64} x stall length d in {0,1,N,random 0..2N+3}, built directly over Stall(d,Echo): the root's first inner value arrives at delivery d+1, so the documented warm-up table (two-sided: None before, Some from) is asserted in values delivered by the child. Mode 'tree': random trees of depth 1-3 with combinators, stalled leaves and stalled inner nodes; a stand-alone twin of the root's child tells when the root is starved and how many values the child has delivered, so the warm-up table is asserted for every listed root over any inner subtree as well. In a quarter of the runs the replica is replaced by its own clone at 1-3 points (mostly during the warm-up) and the oracles continue on the clone. Oracles after construction and after every event: readiness monotone, every reported value finite, answer bit-identical to the post-construction answer while the child has delivered nothing. Feeds: 14 workload shapes (constant, zeros, ties, zero-sum, volatile-then-flat, monotone, ...), scale 1e-3..1e6, lengths 1..3*(window sum)+40, 10% 1000-4000, thorough 1% 20k-100k. distinct = distinct (topology, event-kind schedule); non-trivial = at least one starved delivery was checked, or the warm-up table was evaluated after the child started delivering. One run in eight (where the feed's magnitudes are 0 or within [1e-6,1e7] and a custom ALMA has sigma <= 6) executes the library's generic code instantiated at f32 instead of f64; the oracles are the same."
+        "Mode 'stall' (runs below the systematic bound): every wrapper (32 unary views, PFE, EFT) x N in {1..9,16,33,64} x stall length d in {0,1,N,random 0..2N+3}, built directly over Stall(d,Echo): the root's first inner value arrives at delivery d+1, so the documented warm-up table (two-sided: None before, Some from) is asserted in values delivered by the child. Mode 'tree': random trees of depth 1-3 with combinators, stalled leaves and stalled inner nodes; a stand-alone twin of the root's child tells when the root is starved and how many values the child has delivered, so the warm-up table is asserted for every listed root over any inner subtree as well. In a quarter of the runs the replica is replaced by its own clone at 1-3 points (mostly during the warm-up) and the oracles continue on the clone. Oracles after construction and after every event: readiness monotone, every reported value finite, answer bit-identical to the post-construction answer while the child has delivered nothing. Feeds: 14 workload shapes (constant, zeros, ties, zero-sum, volatile-then-flat, monotone, ...), scale 1e-3..1e6, lengths 1..3*(window sum)+40, 10% 1000-4000, thorough 1% 20k-100k. distinct = distinct (topology, event-kind schedule); non-trivial = at least one starved delivery was checked, or the warm-up table was evaluated after the child started delivering. One run in eight (where the feed's magnitudes are 0 or within [1e-6,1e7] a custom ALMA has sigma <= 6, LnReturn and Drawdown sit directly on the stream and there is no Divide) executes the library's generic code instantiated at f32 instead of f64; the oracles are the same."
             .into()
     }
     fn assumptions(&self) -> Vec<String> {
@@ -148,7 +148,7 @@ impl Prop for C08 {
             "inputs finite, magnitude 0 or within [1e-3,1e7]; positive feed and positivity-preserving subtrees where Drawdown/LnReturn/divisors occur".into(),
             "moderate magnitude holds for every node of a chain: a non-finite value is not a finding when the node that produced it had been fed a value beyond 1e100 by its own child (e.g. the standard deviation of a rate of change over a base of 1e-200); counted under skipped.immoderate_intermediate_magnitude. Tiny non-zero values are ordinary inputs".into(),
             "a panic ends the run and is counted under skipped.panic: crashes belong to C15".into(),
-            "f32 runs: a custom ALMA keeps sigma <= 6 (the library's default): with a narrower Gaussian the weight of the first sample underflows to zero in f32 and the average is 0/0, exactly as it is in f64 beyond sigma ~ 27 - a limit of the parameter range, not of the call schedule; a value beyond 1e15 fed to a node by its own child counts as immoderate there (1e100 in f64)".into(),
+            "f32 runs: a custom ALMA keeps sigma <= 6 (the library's default): with a narrower Gaussian the weight of the first sample underflows to zero in f32 and the average is 0/0, exactly as it is in f64 beyond sigma ~ 27 - a limit of the parameter range, not of the call schedule; LnReturn/Drawdown only directly over the (positive) stream and no Divide, because 'an average of positive values is positive' does not survive f32 rounding of a running sum at a dynamic range of 1e6 (accuracy: C16); a value beyond 1e15 fed to a node by its own child counts as immoderate there (1e100 in f64)".into(),
             "'reports from the k-th value' is read as: nothing before the k-th delivered value, a value from the k-th on".into(),
             "built without debug assertions (the shipped configuration), so a non-finite value is observed instead of being pre-empted by the library's debug_assert".into(),
         ]
